@@ -139,6 +139,9 @@ class _MapFilter(ast.NodeTransformer):
                 elt, ifs = ref, [self._apply(node.args[0], ast.Name(id=v, ctx=ast.Load()))]
             g = ast.GeneratorExp(elt=elt, generators=[ast.comprehension(target=tgt, iter=node.args[1], ifs=ifs, is_async=0)])
             return ast.copy_location(g, node)
+        if q == "builtins.dict" and len(node.args) == 1 and not node.keywords and isinstance(node.args[0], (ast.GeneratorExp, ast.ListComp)) and isinstance(node.args[0].elt, ast.Tuple) and len(node.args[0].elt.elts) == 2:
+            k_, v_ = node.args[0].elt.elts
+            return ast.copy_location(ast.DictComp(key=k_, value=v_, generators=node.args[0].generators), node)
         if q in ("builtins.list", "builtins.tuple", "builtins.set") and len(node.args) == 1 and isinstance(node.args[0], ast.GeneratorExp) and q.endswith("list"):
             lc = ast.ListComp(elt=node.args[0].elt, generators=node.args[0].generators)
             return ast.copy_location(lc, node)
@@ -283,5 +286,166 @@ def prepare(idx, fi, fn):
     fn.body = with_to_try(idx, mod, fi, fn.body, [0])
     fn.body = while_to_for(fn.body)
     fn.body = iter_next(fn.body)
+    ast.fix_missing_locations(fn)
+    return fn
+
+
+# ------------------------------------------------------------------------------------------------ append loops
+def _subst_line(stmts):
+    """substitute straight-line name assignments into the last statement; None when something else is in the way"""
+    env = {}
+
+    class S(ast.NodeTransformer):
+        def visit_Name(self, n):
+            if isinstance(n.ctx, ast.Load) and n.id in env:
+                return copy.deepcopy(env[n.id])
+            return n
+
+    for i, st in enumerate(stmts[:-1]):
+        if not (isinstance(st, ast.Assign) and len(st.targets) == 1 and _is_name(st.targets[0])):
+            return None
+        computing = any(isinstance(x, (ast.Call, ast.Lambda, ast.ListComp, ast.GeneratorExp, ast.DictComp, ast.SetComp, ast.Yield)) for x in ast.walk(st.value))
+        reads = sum(1 for later in stmts[i + 1:] for x in ast.walk(later) if isinstance(x, ast.Name) and x.id == st.targets[0].id and isinstance(x.ctx, ast.Load))
+        if computing and reads != 1:
+            return None
+        env[st.targets[0].id] = S().visit(copy.deepcopy(st.value))
+    return S().visit(copy.deepcopy(stmts[-1]))
+
+
+def _append_value(st, name):
+    """the appended expression when `st` is `name.append(e)`, also under if / if-else (as a conditional expression)"""
+    if isinstance(st, ast.Expr) and isinstance(st.value, ast.Call) and isinstance(st.value.func, ast.Attribute) and st.value.func.attr == "append" and _is_name(st.value.func.value, name) and len(st.value.args) == 1 and not st.value.keywords:
+        return st.value.args[0], None
+    if isinstance(st, ast.If) and len(st.body) == 1 and len(st.orelse) == 1:
+        a, ca = _append_value(st.body[0], name)
+        b, cb = _append_value(st.orelse[0], name)
+        if a is not None and b is not None and ca is None and cb is None:
+            return ast.IfExp(test=st.test, body=a, orelse=b), None
+    if isinstance(st, ast.If) and len(st.body) == 1 and not st.orelse:
+        a, ca = _append_value(st.body[0], name)
+        if a is not None and ca is None:
+            return a, st.test
+    return None, None
+
+
+def append_loops(stmts):
+    """`X = []` ... `for T in IT: [t = ...;] X.append(E)`  ->  `X = [E for T in IT]` (also with one `if c:` around the append, or an
+    if/else appending on both sides); X must not be touched between its creation and the loop nor elsewhere in the body"""
+    out = list(stmts)
+    for st in out:
+        for f_ in ("body", "orelse", "finalbody"):
+            v = getattr(st, f_, None)
+            if isinstance(v, list) and v and isinstance(v[0], ast.stmt):
+                setattr(st, f_, append_loops(v))
+        for h in getattr(st, "handlers", []) or []:
+            h.body = append_loops(h.body)
+    i = 0
+    while i < len(out):
+        st = out[i]
+        if isinstance(st, ast.Assign) and len(st.targets) == 1 and _is_name(st.targets[0]) and isinstance(st.value, ast.List) and not st.value.elts:
+            name = st.targets[0].id
+            j = i + 1
+            while j < len(out) and not any(isinstance(x, ast.Name) and x.id == name for x in ast.walk(out[j])):
+                j += 1
+            if j < len(out) and isinstance(out[j], ast.For) and not out[j].orelse and isinstance(out[j].target, (ast.Name, ast.Tuple)):
+                lp = out[j]
+                if not any(isinstance(x, (ast.Break, ast.Continue, ast.Return, ast.Yield)) for b in lp.body for x in ast.walk(b)):
+                    last = _subst_line(lp.body) if len(lp.body) > 1 else lp.body[0]
+                    if last is not None:
+                        val, cond = _append_value(last, name)
+                        uses_elsewhere = any(isinstance(x, ast.Name) and x.id == name for x in ast.walk(lp.iter))
+                        n_uses = sum(1 for b in lp.body for x in ast.walk(b) if isinstance(x, ast.Name) and x.id == name)
+                        if val is not None and not uses_elsewhere and n_uses == (2 if isinstance(last, ast.If) and last.orelse else 1):
+                            comp = ast.ListComp(elt=val, generators=[ast.comprehension(target=lp.target, iter=lp.iter, ifs=[cond] if cond is not None else [], is_async=0)])
+                            new = ast.Assign(targets=[ast.Name(id=name, ctx=ast.Store())], value=comp, lineno=lp.lineno, col_offset=0)
+                            ast.fix_missing_locations(new)
+                            between = out[i + 1:j]
+                            out[i:j + 1] = between + [new]
+                            continue
+        i += 1
+    return out
+
+
+# ------------------------------------------------------------------------------------------------ small constant loops
+def unroll_const_loops(idx, mod, fi, stmts):
+    """`for v in ("a", "b"): [if C: break] BODY` over a constant tuple of at most four scalars -> BODY once per item, each later
+    copy nested under `if not C:` when the loop starts with `if C: break` (no other break/continue, no else clause)"""
+    out = []
+    for st in stmts:
+        for f_ in ("body", "orelse", "finalbody"):
+            v = getattr(st, f_, None)
+            if isinstance(v, list) and v and isinstance(v[0], ast.stmt):
+                setattr(st, f_, unroll_const_loops(idx, mod, fi, v))
+        for h in getattr(st, "handlers", []) or []:
+            h.body = unroll_const_loops(idx, mod, fi, h.body)
+        if isinstance(st, ast.For) and not st.orelse and _is_name(st.target):
+            try:
+                items = idx.const(mod, st.iter, fi)
+            except Exception:
+                items = None
+            if isinstance(items, (tuple, list)) and 0 < len(items) <= 4 and all(isinstance(x, (str, int, float, bool)) or x is None for x in items):
+                body = st.body
+                guard = None
+                if body and isinstance(body[0], ast.If) and not body[0].orelse and len(body[0].body) == 1 and isinstance(body[0].body[0], ast.Break):
+                    guard = body[0].test
+                    body = body[1:]
+                if body and not any(isinstance(x, (ast.Break, ast.Continue)) for b in body for x in ast.walk(b)) and not (guard is not None and any(isinstance(x, ast.Name) and x.id == st.target.id for x in ast.walk(guard))):
+                    var = st.target.id
+
+                    def inst(val):
+                        class S(ast.NodeTransformer):
+                            def visit_Name(self, n):
+                                if n.id == var and isinstance(n.ctx, ast.Load):
+                                    return ast.copy_location(ast.Constant(value=val), n)
+                                return n
+
+                        return [S().visit(copy.deepcopy(b)) for b in body]
+
+                    acc = []
+                    for val in reversed(items):
+                        block = inst(val) + acc
+                        if guard is not None:
+                            block = [ast.If(test=ast.UnaryOp(op=ast.Not(), operand=copy.deepcopy(guard)), body=block, orelse=[], lineno=st.lineno, col_offset=0)]
+                        acc = block
+                    for b in acc:
+                        ast.fix_missing_locations(b)
+                    out.extend(acc)
+                    continue
+        out.append(st)
+    return out
+
+
+def or_assignments(stmts):
+    """`if not x: x = E` -> `x = x or E` (the same value, as one expression the rules can read)"""
+    out = []
+    for st in stmts:
+        for f_ in ("body", "orelse", "finalbody"):
+            v = getattr(st, f_, None)
+            if isinstance(v, list) and v and isinstance(v[0], ast.stmt):
+                setattr(st, f_, or_assignments(v))
+        if isinstance(st, ast.If) and not st.orelse and isinstance(st.test, ast.UnaryOp) and isinstance(st.test.op, ast.Not) and _is_name(st.test.operand):
+            x = st.test.operand.id
+            body = st.body
+            if body and isinstance(body[0], ast.Assign) and len(body[0].targets) == 1 and _is_name(body[0].targets[0], x):
+                first = ast.Assign(targets=[ast.Name(id=x, ctx=ast.Store())], value=ast.BoolOp(op=ast.Or(), values=[ast.Name(id=x, ctx=ast.Load()), body[0].value]), lineno=st.lineno, col_offset=0)
+                ast.fix_missing_locations(first)
+                rest = body[1:]
+                if not rest:
+                    out.append(first)
+                    continue
+                # `if not x: x = E; REST`  with REST itself only of this shape -> x = x or E; REST' (REST ran only when x was false
+                # before; when x was already true each of its steps `x = x or ...` leaves x unchanged, so running it always is the same)
+                rest2 = or_assignments(rest)
+                if all(isinstance(r, ast.Assign) and len(r.targets) == 1 and _is_name(r.targets[0], x) and isinstance(r.value, ast.BoolOp) and isinstance(r.value.op, ast.Or) and _is_name(r.value.values[0], x) for r in rest2):
+                    out.append(first)
+                    out.extend(rest2)
+                    continue
+        out.append(st)
+    return out
+
+
+def syntactic(idx, fi, fn):
+    """the expression-level rewrites alone (safe to repeat after inlining)"""
+    fn = _MapFilter(idx, fi.module, fi).generic_visit(fn)
     ast.fix_missing_locations(fn)
     return fn
